@@ -11,6 +11,21 @@ IO, ITER = io_common.IO, io_common.ITER
 P = 'C09'
 
 
+def _no_faults(it, env):
+  # C09 is about fault-free reading (faults are C12): the source never raises.
+  v = env['self'].f['_it']
+  v.fails = None
+
+
+def _bind_shard_result(it, env, old):
+  # at a call site the fresh result's state has the receiver's state as parent
+  # (object identity), and its ghost interval unfolds from that parent
+  st = it.getfield(env['result'], '_shard_state')
+  st.f['parent'] = it.getfield(env['self'], '_shard_state')
+  io_common._unfold_state(it, st)
+  return None
+
+
 def register(R):
   io_common.register(R)
 
@@ -42,7 +57,81 @@ def register(R):
           ])},
       witness=dict(start='src_start(self)', end='src_end(self)', shard_index='shard_index',
                    num_shards='num_shards', offset='offset'),
+      post_hook=_bind_shard_result,
       replay='replay_shard', bounded='bounded_shard'))
+
+  # ---- rebuilding a shard from its recorded state ------------------------------------------
+  INV = ['self._start == self._shard_state.g_start', 'src_end(self) == self._shard_state.g_end']
+  R.add(Contract(
+      f'{IO}::SequenceDataSource.from_state', P,
+      types=dict(self='SequenceDataSource', shard_state='ShardConfig'), ret='SequenceDataSource',
+      requires=['len(self.data) == root_len', 'shard_state.g_ok'],
+      ensures=['result._start == shard_state.g_start', 'src_end(result) == shard_state.g_end',
+               'result.data is self.data', 'result.ignore_error == self.ignore_error'],
+      bounded='bounded_shard',
+      note='induction on the parent chain: the recursive call is replaced by this contract'))
+  R.lemma('state-denotes-interval-is-preserved-by-shard', P,
+          dict(x='SequenceDataSource', i='int', k='int', off='int'),
+          ['len(x.data) == root_len', 'x._start == x._shard_state.g_start', 'src_end(x) == x._shard_state.g_end',
+           '0 <= i < k'],
+          ['x.shard(i, k, off)._start == x.shard(i, k, off)._shard_state.g_start',
+           'src_end(x.shard(i, k, off)) == x.shard(i, k, off)._shard_state.g_end'],
+          note='class invariant: a source obtained by shard* from a root has the interval its state denotes')
+  R.lemma('rebuilding-from-recorded-state-gives-the-same-interval', P,
+          dict(x='SequenceDataSource'),
+          ['len(x.data) == root_len', 'x._start == x._shard_state.g_start', 'src_end(x) == x._shard_state.g_end',
+           'x._shard_state.g_ok'],
+          ['x.from_state(x.state)._start == x._start', 'src_end(x.from_state(x.state)) == src_end(x)',
+           'x.from_state(x.state).data is x.data'],
+          note='over the contracts of from_state/state only: round trip for every nesting depth')
+
+  R.add(Contract(f'{IO}::SequenceDataSource.__len__', P, types=dict(self='SequenceDataSource'), ret='int',
+                 ensures=['result == src_end(self) - src_start(self)'], note='reports its true length'))
+  R.add(Contract(f'{IO}::SequenceDataSource.start', P, types=dict(self='SequenceDataSource'), ret='int',
+                 ensures=['result == src_start(self)']))
+  R.add(Contract(f'{IO}::SequenceDataSource.end', P, types=dict(self='SequenceDataSource'), ret='int',
+                 ensures=['result == src_end(self)']))
+
+  # ---- DataIterator.__next__ (round-robin shard of any iterable) ---------------------------
+  # ghost: self._it reads the underlying iterable `src` at cursor `pos`; coupling
+  # invariant cursor == self._index.
+  R.cls('DataIterator', dict(config='ShardedIterable', _index='int', _it='iter[obj]'))
+  R.add(Contract(
+      f'{IO}::DataIterator.__next__', P,
+      types=dict(self='DataIterator'), ret='obj',
+      requires=['self._it.pos == self._index', 'self._index >= 0',
+                'self.config._shard_state.num_shards >= 1',
+                '0 <= self.config._shard_state.shard_index < self.config._shard_state.num_shards',
+                ],
+      setup=_no_faults,
+      # the element delivered is the first one at or after max(index, start_index)
+      # whose position is congruent to shard_index: nothing of the shard is skipped,
+      # nothing outside it is delivered.
+      ensures=[
+          'self._index - 1 >= old(self._index) and self._index - 1 >= self.config._shard_state.start_index',
+          '(self._index - 1) % self.config._shard_state.num_shards == self.config._shard_state.shard_index',
+          'forall(lambda t: implies(t >= self.config._shard_state.start_index,'
+          ' t % self.config._shard_state.num_shards != self.config._shard_state.shard_index), old(self._index), self._index - 1)',
+          'result is self._it.src[self._index - 1]',
+          'self._it.pos == self._index',
+      ],
+      raises_ensures={'StopIteration': [
+          # exhaustion only when no element of the shard is left
+          'forall(lambda t: implies(t >= self.config._shard_state.start_index and t >= old(self._index),'
+          ' t % self.config._shard_state.num_shards != self.config._shard_state.shard_index), 0, len(self._it.src))',
+      ]},
+      loops={
+          0: dict(invariant=['self._it.pos == self._index', 'self._index >= old(self._index)',
+                             'self._index <= max(old(self._index), self.config._shard_state.start_index)']),
+          1: dict(invariant=['self._it.pos == self._index', 'self._index >= old(self._index)',
+                             'self._index >= self.config._shard_state.start_index',
+                             'forall(lambda t: implies(t >= self.config._shard_state.start_index,'
+                             ' t % self.config._shard_state.num_shards != self.config._shard_state.shard_index), old(self._index), self._index)']),
+      },
+      witness=dict(index='self._index', start_index='self.config._shard_state.start_index',
+                   shard_index='self.config._shard_state.shard_index', num_shards='self.config._shard_state.num_shards',
+                   n='len(self._it.src)'),
+      bounded='bounded_sharded_iterable'))
 
   # ---- partition lemmas over the contract's spec functions only ---------------------------
   tys = dict(s='int', e='int', i='int', k='int')
